@@ -54,6 +54,15 @@ TABLE = {
  "C20-1": {"breaks": "C20", "file": "src/state/substitution.rs",
            "what": "occurs_check_compound only looks into compound fields that are syntactically variables",
            "needs": "a variable unified with a compound that contains it at depth >= 2 below a non-variable field (x == Pair(1, Pair(2, x)))"},
+ "C11-1": {"breaks": "C11", "file": "src/operator/project.rs",
+           "what": "Project::solve resolves the projected variables with walk instead of walk_star",
+           "needs": "the projected variable is bound to a list/compound whose inner variables are bound separately, and the body inspects the value non-relationally"},
+ "C21-1": {"breaks": "C21", "file": "src/lterm.rs",
+           "what": "PartialEq for Cons/Cons compares the iterated element sequences instead of recursing structurally",
+           "needs": "== between a proper and an improper list whose element sequences coincide ([1, 2 | 3] vs [1, 2, 3]), possibly nested or through contains"},
+ "C24-1": {"breaks": "C24", "file": "src/relation/distinct.rs",
+           "what": "distinct recurses on `rest` instead of [second | rest]",
+           "needs": "a list of >= 3 elements whose only equal pair is the second element and a later one ([1,2,2])"},
 }
 for name, t in TABLE.items():
     d = os.path.join(ROOT, "seeded", name)
